@@ -200,7 +200,7 @@ pub fn c15_def() -> PropDef {
         },
         candidates: sim_candidates,
         runs_quick: 200_000,
-        runs_thorough: 20_000_000,
+        runs_thorough: 8_000_000,
         level: "exploration",
         rule: "seeded histories of 1-12 builder calls (with_rule, with_rules, with_function, with_functions, with_symbol, with_symbols via insert/append/From) over small name pools with repeats; function names = all 38 reserved words and 20 near-identifiers each forced through both entry points over the first 116 run indices, plus identifiers and don't-care names; a refused call consumes the builder, the accepted prefix is rebuilt and the history continues; each call is judged against a reference model of the builder, then the built ruleset is evaluated in the simulator with one probe rule per function name and symbol name of the pools; non-trivial = at least two calls; distinct = distinct (accept/refuse sequence with refusal classes, final table sizes) hashes in a 2^25-bit bitmap",
         assumptions: &[
